@@ -77,6 +77,11 @@ func genC15(r *h.Rng, tier string, idx int) *h.Plan {
 			}
 			// "each due tick evaluates that rule (condition, then actions)": none / holds / finds nothing
 			op.C = r.Weighted([]int{6, 2, 2, 3}) // 3: the condition asks for the location's "gate" fact
+			if r.P(1, 5) {
+				// the rule's body carries an "id" of its own (that of the anchor
+				// fact): the rule is the one stored under the id it was added with
+				op.WK = "ownid"
+			}
 			p.Ops = append(p.Ops, op)
 		case 1:
 			p.Ops = append(p.Ops, h.Op{K: "addplain", Loc: loc, Id: id})
@@ -427,6 +432,9 @@ func execC15(t *testing.T, plan *h.Plan, trace bool) *h.Result {
 				}
 				if op.N > 0 {
 					rule["ttl"] = fmt.Sprintf("%ds", op.N)
+				}
+				if op.WK == "ownid" {
+					rule["id"] = "anchor"
 				}
 				switch op.C {
 				case 1:
